@@ -44,6 +44,16 @@ type Env struct {
 	headEnv *Env
 	pending []Term // type facts about quantified terms (not assumed globally)
 	upTo    ssa.Instruction // in atBlk, only instructions before this one are visible
+	skolemize bool           // replace positive top-level foralls by fresh constants (goal side only)
+	pos       bool
+	skolems   []skolem
+	evalPos   bool
+	skRoot    *Env
+}
+
+type skolem struct {
+	name string // source-level bound variable
+	t    Term
 }
 
 func (fc *FnCtx) pkgTypes() *types.Package {
@@ -346,6 +356,16 @@ func (fc *FnCtx) specBool(env *Env, text string) (Term, error) {
 	return sv.v.T, nil
 }
 
+// specBoolGoal evaluates a goal, replacing positive universal quantifiers by skolem constants.
+func (fc *FnCtx) specBoolGoal(env *Env, text string) (Term, []skolem, error) {
+	g := env.sub()
+	g.skolemize = true
+	g.pos = true
+	g.skRoot = g
+	t, err := fc.specBool(g, text)
+	return t, g.skolems, err
+}
+
 func (fc *FnCtx) specExpr(env *Env, text string) (sv sval, err error) {
 	defer func() {
 		if r := recover(); r != nil {
@@ -381,8 +401,12 @@ func specPanic(format string, args ...interface{}) {
 
 func (e *Env) eval(ex ast.Expr) sval {
 	fc := e.fc
+	pos := e.pos
+	e.pos = false
+	defer func() { e.pos = pos }()
 	switch x := ex.(type) {
 	case *ast.ParenExpr:
+		e.pos = pos
 		return e.eval(x.X)
 	case *ast.BasicLit:
 		switch x.Kind {
@@ -436,6 +460,11 @@ func (e *Env) eval(ex ast.Expr) sval {
 					return sval{v: b.v, t: b.t}
 				}
 			}
+			// &a[i] / &p.f where the operand already denotes the address of an aggregate
+			a := e.eval(x.X)
+			if _, isPtr := a.t.Underlying().(*types.Pointer); isPtr && a.v.K == KPtr {
+				return a
+			}
 			specPanic("unsupported address-of")
 		}
 		a := e.eval(x.X)
@@ -458,8 +487,10 @@ func (e *Env) eval(ex ast.Expr) sval {
 		}
 		specPanic("unsupported unary %s", x.Op)
 	case *ast.BinaryExpr:
+		e.evalPos = pos
 		return e.evalBinary(x)
 	case *ast.CallExpr:
+		e.evalPos = pos
 		return e.evalCall(x)
 	case *ast.IndexExpr:
 		return e.evalIndex(x)
@@ -504,8 +535,31 @@ func (e *Env) coerce(a sval, t types.Type) sval {
 	return sval{v: Leaf(BVLit(a.c, bits)), t: t}
 }
 
+// derefArr loads the value of a small byte array denoted by its address.
+func (e *Env) derefArr(a sval) sval {
+	if a.isConst || a.t == nil || a.v.K != KPtr {
+		return a
+	}
+	if pt, ok := a.t.(*types.Pointer); ok {
+		if _, small := isSmallByteArray(pt.Elem()); small {
+			return sval{v: e.loadT(pt.Elem(), a.v.Obj(), a.v.Off()), t: pt.Elem()}
+		}
+	}
+	return a
+}
+
 func (e *Env) evalBinary(x *ast.BinaryExpr) sval {
 	fc := e.fc
+	if x.Op == token.LAND && e.skolemize {
+		// conjunction preserves positivity (the caller saved it in evalPos)
+		p := e.evalPos
+		e.pos = p
+		a := e.eval(x.X)
+		e.pos = p
+		b := e.eval(x.Y)
+		e.pos = false
+		return sval{v: Leaf(And(a.v.T, b.v.T)), t: types.Typ[types.Bool]}
+	}
 	a := e.eval(x.X)
 	// nil comparisons
 	if id, ok := x.Y.(*ast.Ident); ok && id.Name == "nil" && (x.Op == token.EQL || x.Op == token.NEQ) {
@@ -524,6 +578,7 @@ func (e *Env) evalBinary(x *ast.BinaryExpr) sval {
 		return sval{v: Leaf(t), t: types.Typ[types.Bool]}
 	}
 	b := e.eval(x.Y)
+	a, b = e.derefArr(a), e.derefArr(b)
 	if a.isConst && b.isConst {
 		r := new(big.Int)
 		switch x.Op {
@@ -806,11 +861,10 @@ func (e *Env) evalSelector(x *ast.SelectorExpr) sval {
 			if stt.Field(i).Name() == x.Sel.Name {
 				off := offPlus(v.Off(), fieldCellOffset(stt, i))
 				ft := stt.Field(i).Type()
-				if arr, isArr := ft.Underlying().(*types.Array); isArr {
-					if _, small := isSmallByteArray(ft); !small {
-						_ = arr
-						return sval{v: PtrV(v.Obj(), off), t: types.NewPointer(ft)}
-					}
+				if _, isArr := ft.Underlying().(*types.Array); isArr {
+					// arrays reached through a pointer stay addresses: indexing reads one cell;
+					// where a value is needed (comparison) it is loaded on demand (derefArr)
+					return sval{v: PtrV(v.Obj(), off), t: types.NewPointer(ft)}
 				}
 				return sval{v: e.loadT(ft, v.Obj(), off), t: ft}
 			}
@@ -918,9 +972,26 @@ func (e *Env) evalCall(x *ast.CallExpr) sval {
 			if !ok {
 				specPanic("quantifier variable must be an identifier")
 			}
+			wasPos := e.evalPos
 			lo, _ := fc.toIntTerm(e.coerce(e.eval(x.Args[1]), intT))
 			hi, _ := fc.toIntTerm(e.coerce(e.eval(x.Args[2]), intT))
 			*e.qn++
+			if id.Name == "forall" && e.skolemize && wasPos && e.skRoot != nil {
+				// goal-side universal quantifier in positive position: a fresh constant
+				saveBlk := fc.curBlk
+				fc.curBlk = -1
+				sk := fc.freshConst(vid.Name+"!sk", SInt)
+				fc.curBlk = saveBlk
+				e.skRoot.skolems = append(e.skRoot.skolems, skolem{vid.Name, sk})
+				n := e.sub()
+				n.binds[vid.Name] = binding{Leaf(sk), specIntType}
+				n.pos = true
+				body := n.eval(x.Args[3])
+				if body.v.K != KLeaf || body.v.T.Sort != SBool {
+					specPanic("quantifier body not boolean")
+				}
+				return sval{v: Leaf(Implies(And(Le(lo, sk), Lt(sk, hi)), body.v.T)), t: boolT}
+			}
 			qv := Term{fmt.Sprintf("%s!q%d", vid.Name, *e.qn), SInt}
 			n := e.sub()
 			n.binds[vid.Name] = binding{Leaf(qv), specIntType}
@@ -1010,7 +1081,11 @@ func (e *Env) evalCall(x *ast.CallExpr) sval {
 			indom := Select(Select(e.st.mdom, m.v.T), sv)
 			return sval{v: Leaf(Term{fmt.Sprintf("(forall ((%s Int)) (! %s :pattern (%s)))", sv.S, Implies(indom, body.v.T).S, indom.S), SBool}), t: boolT}
 		case "implies":
-			a, b := e.eval(x.Args[0]), e.eval(x.Args[1])
+			wasPos := e.evalPos
+			a := e.eval(x.Args[0])
+			e.pos = wasPos
+			b := e.eval(x.Args[1])
+			e.pos = false
 			return sval{v: Leaf(Implies(a.v.T, b.v.T)), t: boolT}
 		case "iff":
 			a, b := e.eval(x.Args[0]), e.eval(x.Args[1])
